@@ -136,7 +136,18 @@ class C05(Prop):
                     wordlists.append(ws)
                 c = {"kind": "wrapper", "segs": segs, "sep": sepk, "width": width, "ii": ii, "si": si,
                      "semantic": r.random() < 0.5, "hb": r.choice(["\\\n", "  \n"])}
-                if r.random() < 0.4:
+                if sepk == "hard" and r.random() < 0.12:
+                    # a tag written over two source lines as the LAST thing before the hard break (and one in the middle): the break
+                    # right behind its closing delimiter is a break, a break-like line end inside it is tag text
+                    tg = r.choice([("{% tag a=1 b=\"x y\" %}", "{% tag a=1\nb=\"x y\" %}"), ("<!-- a comment here -->", "<!-- a comment\nhere -->"),
+                                   ("{{ v | f(1, 2) }}", "{{ v |\nf(1, 2) }}"), ("{# note to self #}", "{# note  \nto self #}")])
+                    if re.match(r"^([-*+]|\d{1,9}[.)])( |$)", segs[0]) or segs[0].startswith("|"):
+                        segs[0] = "x" + segs[0]  # (a line that looks like a list item or table row next to a tag is block content for the tag heuristics: C06's business)
+                    segs[0] = segs[0] + " " + tg[0]
+                    c["segs"] = segs
+                    c["layout"] = [segs[0][:-len(tg[0])] + tg[1]] + segs[1:]
+                    c["multi_line_tag_before_break"] = True
+                elif r.random() < 0.4:
                     # source layout: soft line breaks / space runs between plain words (never next to a
                     # tag, never before a word that could start a block)
                     lay = []
